@@ -1,8 +1,9 @@
 """Two application stacks on a virtual LAN whose frames can be watched, dropped or rewritten
 (used by the segmentation repro scripts).  Uses only the library's public classes and the
 test suite's time machine."""
-import sys, logging
-sys.path[:0] = ['/repo/py34', '/repo']
+import sys, logging, os
+_SRC = os.environ.get("BACPYPES_SRC", "/repo/py34")          # default: the working tree; BACPYPES_SRC selects another checkout
+sys.path[:0] = [_SRC, os.path.dirname(_SRC)]
 
 from bacpypes.primitivedata import CharacterString
 from bacpypes.constructeddata import Any
